@@ -116,6 +116,19 @@ Theorem C01_engine_verdict_none :
 Proof. exact basic_rule_none. Qed.
 Print Assumptions C01_engine_verdict_none.
 
+(** Layers together: over the rule lists themselves (any length), "no
+    allow-list rule matches and a non-exception block rule is of the highest
+    priority class among the matching block rules that survive $badfilter"
+    gives the rule-list premise of C01_blocked_is_local for the modelled
+    engines. *)
+Theorem C01_engine_verdict_spec :
+  forall allow block st host qt,
+  host <> [] -> st_filtering st = true ->
+  no_rule_matches allow (rq_of st host qt) -> wins_block block (rq_of st host qt) ->
+  list_blocked (match_request allow) (match_request block) st host qt.
+Proof. exact list_blocked_from_rules. Qed.
+Print Assumptions C01_engine_verdict_spec.
+
 (** Non-vacuity: one configuration per blocking mode that meets the premise
     of C01_blocked_is_local, with the modelled engine over "||a.test^". *)
 Example C01_blocked_premises_satisfiable :
